@@ -27,6 +27,9 @@ Verdict(r) ==
     [] op = "cmp" -> LET c == Compare(a, r.b) IN
                      IF r.lt = B3(c < 0) /\ r.eq = B3(c = 0) /\ r.gt = B3(c > 0) /\ r.le = B3(c <= 0) /\ r.ge = B3(c >= 0) /\ r.ne = B3(c # 0)
                      THEN OK ELSE "comparison disagrees with the numeric order"
+    [] op = "repr" -> \* the same operation on operands of equal value but different scale: results of equal value
+                IF (o.k = "null" /\ r.obs2.k = "null") \/ (o.k = "num" /\ r.obs2.k = "num" /\ o.fin = r.obs2.fin /\ (~o.fin \/ Compare(o, r.obs2) = 0))
+                THEN OK ELSE "the result depends on the scale (trailing zeros) of operands of equal value"
     [] op = "odd" -> IF r.code = B3(Odd(a)) THEN OK ELSE "odd() wrong"
     [] op = "even" -> IF r.code = B3(Even(a)) THEN OK ELSE "even() wrong"
     [] op = "exp" -> \* accuracy not modelled yet; range and finiteness are: e^x exceeds the range from x = 14150
